@@ -106,6 +106,15 @@ def run_once(scn, ri, db, emit, seq_cfg=None):
             super().__init__(config)
             state["holder"] = self
 
+        _assoc_calls = 0
+
+        def batch_insert_node_associations(self):
+            # crash-point exploration: the process is killed between the node commit and the association commit
+            Holder._assoc_calls += 1
+            if run.get("kill_before_assoc_commit") == Holder._assoc_calls:
+                os._exit(17)
+            return super().batch_insert_node_associations()
+
         def save_data(self, otel_event):
             sp = {"eid": otel_event.event_id, "par": otel_event.parent_event_id or NOPAR, "job": otel_event.job_id,
                   "name": otel_event.job_name, "ty": otel_event.event_type, "s": from_ns(otel_event.start_timestamp),
@@ -252,6 +261,9 @@ def run_scenario(scn, db):
             for ln in inp:
                 lines.append(json.loads(ln))
         _, st = os.waitpid(pid, 0)
+        if os.WIFEXITED(st) and os.WEXITSTATUS(st) == 17:
+            lines.append({"op": "killed", "run": ri, "post": dict(snapshot(db), npend=0, status="killed")})
+            continue
         if st != 0:
             lines.append({"op": "harness-error", "run": ri, "status": st})
             break
